@@ -197,6 +197,12 @@ def scratch_root() -> Path:
     if _scratch_root is None:
         _scratch_root = SHM / f"rv.{os.getpid()}"
         _scratch_root.mkdir(parents=True, exist_ok=True)
+        # redo looks for its state directory in every ancestor of a project: a `.redo` above the scratch area would be
+        # shared by every scratch project that has none of its own yet (all executions would contend for one database)
+        for anc in [_scratch_root] + list(_scratch_root.parents):
+            if (anc / ".redo").exists():
+                raise MachineryError(f"{anc}/.redo exists: every scratch project below it would use it as its state "
+                                     f"directory; remove it (no check creates it: commands that name '/' run in a jail)")
     return _scratch_root
 
 
@@ -237,6 +243,44 @@ def run_cmd(argv, cwd, env, timeout=60, stdin=None):
             p.kill()
             out, err = b"", b""
         return -999, (out or b"").decode("utf-8", "replace"), (err or b"").decode("utf-8", "replace")
+
+
+def make_jail(jail, bindir):
+    """A directory usable as `/` for subject commands whose arguments name the file-system root (they create /.redo):
+    the subject binary and its tool links in /bin, /bin/sh, and the shared objects both need."""
+    jail = Path(jail)
+    need = set()
+    for exe in (str(Path(bindir) / "redo"), "/bin/sh"):
+        out = subprocess.run(["ldd", exe], stdout=subprocess.PIPE, text=True).stdout
+        for ln in out.splitlines():
+            for tok in ln.split():
+                if tok.startswith("/") and os.path.exists(tok):
+                    need.add(tok)
+    for f in need:
+        dst = jail / f.lstrip("/")
+        dst.parent.mkdir(parents=True, exist_ok=True)
+        if not dst.exists():
+            shutil.copy2(os.path.realpath(f), dst)
+    (jail / "bin").mkdir(parents=True, exist_ok=True)
+    shutil.copy2(str(Path(bindir) / "redo"), jail / "bin" / "redo")
+    shutil.copy2(os.path.realpath("/bin/sh"), jail / "bin" / "sh")
+    for t in REDO_TOOLS:
+        if not (jail / "bin" / t).exists():
+            (jail / "bin" / t).symlink_to("redo")
+    for d in ("tmp", "home", "dev"):
+        (jail / d).mkdir(exist_ok=True)
+    return jail
+
+
+def run_jailed(jail, argv, cwd, timeout=60):
+    """Run argv (paths as seen inside the jail) chrooted into `jail`, in directory `cwd` (inside).  The jail gets its own
+    /proc (redo needs /proc/self/exe) and the real /dev, mounted in a private mount namespace that disappears with the command."""
+    (Path(jail) / "proc").mkdir(exist_ok=True)
+    env = {"PATH": "/usr/sbin:/usr/bin:/sbin:/bin", "RV_JAIL": str(jail), "RV_CWD": cwd}
+    inner = 'cd "$RV_CWD" && PATH=/bin LC_ALL=C TERM=dumb HOME=/home TMPDIR=/tmp exec "$@"'
+    outer = 'mount -t proc proc "$RV_JAIL/proc" && mount --bind /dev "$RV_JAIL/dev" && exec chroot "$RV_JAIL" /bin/sh -c \'%s\' sh "$@"' % inner
+    return run_cmd(["unshare", "--mount", "--propagation", "private", "sh", "-c", outer, "sh"] + list(argv), "/", env,
+                   timeout=timeout)
 
 
 # ---------------------------------------------------------------------------
